@@ -48,7 +48,14 @@ class List(Expression):
         LEN = Code('len')
         staging = out.var('staging', [])
 
-        with out.WHILE(True):
+        # A maximum that is only known at run time may be zero, so it has to be
+        # tested before each iteration.
+        is_static_max = self.max_len is None or str(self.max_len).isdigit()
+        loop_condition = True if is_static_max else (
+            LEN(staging) < Code(self.max_len)
+        )
+
+        with out.WHILE(loop_condition):
             if self.expr.can_partially_succeed():
                 checkpoint = out.var('checkpoint', POS)
 
